@@ -38,6 +38,7 @@ KINDS = [
     "  40100a:\t06                   \t(bad)",
     "  40100b:\t66                   \tdata16",
     "  40100c:\tf0                   \tlock",
+    "  401040:\t66 2e 74 05          \tdata16 je,pn 401046 <main+0x46>",
     "  40100d:\t48                   \trex.W",
     "  40100e:\t48 b8 88 77 66 55 44 \tmovabs $0x1122334455667788,%rax",
     "  401018:\te8 13 00 00 00       \tcall   401030 <" + "N" * 1200 + "+0x10>",
@@ -110,7 +111,7 @@ def run_shard(shard, tier, h, res, known):
 
 def controls(h):
     c = [rm.classify_line(k)[0] for k in KINDS]
-    if c != ["inst", "inst", "other", "other", "other", "other", "other", "cont", "inst", "inst", "inst", "inst", "inst", "inst", "inst", "other"]:
+    if c != ["inst", "inst", "other", "other", "other", "other", "other", "cont", "inst", "inst", "inst", "inst", "inst", "inst", "inst", "inst", "other"]:
         raise HarnessError(f"line classifier wrong on the line kinds: {c}")
 
 
